@@ -166,7 +166,10 @@ def chk_case(inp, c):
         st = row_status[r]
         if st in (None, "optimal"):
             return base
-        return f"{base}@{st}" + (":gross" if (st == "optimal_inaccurate" and excess > 4.0) else "")
+        # the default path is solved by Clarabel (repo fix c46726f): a non-optimal status there is never a known finding;
+        # solver settings chosen by the caller (pass-through) are keyed ':explicit-solver'
+        sfx = "" if inp["setting"] == "default" else ":explicit-solver"
+        return f"{base}@{st}{sfx}" + (":gross" if (st == "optimal_inaccurate" and excess > 4.0) else "")
     finite = np.all(np.isfinite(ubv))
     Z = oracles.Zonotope(Mt, c0, lbv, ubv) if finite else None
     active_any = False
